@@ -324,23 +324,39 @@ async def frame(job, mods, cls, msg, plan, rng):
 def main_schedule(job):
     """several dictionaries in ONE process at the granularity of the generator API: `['c', i]` = parse dictionary i and construct
     its Generator, `['g', i]` = generate() of that object; steps of different dictionaries interleaved as the schedule says.
+    `['p', i]` = parse only, `['c', i, s]` = construct Generator i on the Definitions object parsed for member s (one parse()
+    result handed to several generators with their own app names / prefixes / output directories).
     Output: {'gens': [gen result of dictionary i (of its last generate())...]}; the packages are introspected afterwards, each
     in a process of its own (the worker again, with `pregen`)."""
     from nasdaq_protocols.fix.parser import parse, Generator
     jobs = job['jobs']
     objs, gens = {}, [None] * len(jobs)
+    defs = {}              # i -> the Definitions object parse() returned for dictionary i (ONE object, however many generators use it)
     buf = io.StringIO()
-    for op, i in job['schedule']:
+    for step in job['schedule']:
+        # ['p', i]: parse dictionary i (nothing else);  ['c', i]: parse dictionary i and construct its Generator;
+        # ['c', i, s]: construct Generator i (its own app name / prefix / directory) on the Definitions object that was parsed for s
+        # — no second parse: the object is handed to several generators;  ['g', i]: generate() of generator i
+        op, i = step[0], step[1]
+        src = step[2] if len(step) > 2 else None
         j = jobs[i]
         out_dir = os.path.join(j['out_root'], j['pkg'])
         try:
             with contextlib.redirect_stdout(buf):
-                if op == 'c':
-                    objs[i] = Generator(parse(j['xml'], j['version']), j['app'], out_dir, j['prefix'], generate_init_file=j['init_file'])
+                if op == 'p':
+                    defs[i] = parse(j['xml'], j['version'])
+                elif op == 'c':
+                    if src is None:
+                        defs[i] = parse(j['xml'], j['version'])
+                        src = i
+                    if src not in defs:
+                        raise RuntimeError(f'dictionary {src} was not parsed (its parse() failed or never ran)')
+                    objs[i] = Generator(defs[src], j['app'], out_dir, j['prefix'], generate_init_file=j['init_file'])
                 elif i in objs:
                     gens[i] = {'ok': sorted(os.path.basename(f) for f in objs[i].generate())}
         except BaseException as e:  # noqa
-            gens[i] = err(e)
+            if not (gens[i] and 'err' in gens[i]):      # (the first failure of a member is the one reported)
+                gens[i] = err(e)
             objs.pop(i, None)
     sys.stdout.write(json.dumps({'gens': gens}) + '\n')
 
